@@ -175,6 +175,24 @@ class Walker:
         # symbols
         if kind in ("FuncDefn", "FuncDecl"):
             self.symbol_of[hn.idx] = mn.operation.symbol.name
+            # the symbol declares exactly the function's parameters and constrains exactly the copyable type
+            # parameters (well scoped: a constraint names a parameter of this symbol, once)
+            import hugr.tys as htys
+
+            sym = mn.operation.symbol
+            ps = list(op.params) if kind == "FuncDefn" else list(op.signature.params)
+            names = [p.name for p in sym.params]
+            if names != [str(i) for i in range(len(ps))]:
+                self.fail("symbols", f"{kind}:parameters", f"node {hn.idx}: declared {names} for {len(ps)} parameters")
+            want_c = sorted(str(i) for i, p in enumerate(ps) if isinstance(p, htys.TypeTypeParam) and p.bound == htys.TypeBound.Copyable)
+            got_c = []
+            for t in sym.constraints:
+                if isinstance(t, model.Apply) and t.symbol == "core.nonlinear" and len(t.args) == 1 and isinstance(t.args[0], model.Var):
+                    got_c.append(t.args[0].name)
+                else:
+                    got_c.append(repr(t))
+            if sorted(got_c) != want_c:
+                self.fail("symbols", f"{kind}:constraints", f"node {hn.idx}: nonlinear constraints on {sorted(got_c)}, copyable type parameters {want_c}")
         if kind in ("Call", "LoadFunc"):
             term = mn.operation.operation
             fn = None
@@ -396,7 +414,20 @@ def strategy_calls(tier):
 
 CL = lambda c: [x for x in c.get("classes", []) if x in NT_A | NT_B | {"metadata", "function-called-twice", "polymorphic-function", "conditional", "tail-loop", "nested-dfg", "dom-edge"}]  # noqa: E731
 
+def _unordered(case):
+    try:
+        r, _ = run_program(case)
+        h = r.hugr
+        return any([c.idx for c in h.children(n)] != sorted(c.idx for c in h.children(n)) for n in h)
+    except Exception:  # noqa: BLE001
+        return False
+
+
 SUBS = [
+    # the same programs with index churn before every container, constant and block: children whose index order
+    # differs from their child order (cases of a conditional, blocks of a CFG, functions of the module)
+    Sub("export-after-index-churn", check, strategy=lambda tier: strategy(tier).map(lambda p: dict(p, churn=True)), nontrivial=_unordered,
+        classes=lambda c: CL(c) + (["children-not-in-index-order"] if _unordered(c) else []), n_quick=120, n_thorough=800, sample_ok=lambda c: len(c["events"]) <= 12),
     Sub("export", check, strategy=strategy, nontrivial=nontrivial, classes=CL, n_quick=150, n_thorough=1000, sample_ok=lambda c: len(c["events"]) <= 12),
     Sub("export-calls", check, strategy=strategy_calls, nontrivial=nontrivial, classes=CL, n_quick=150, n_thorough=1000, sample_ok=lambda c: len(c["events"]) <= 12),
     Sub("classes", check_class, enumerate=enum_classes, nontrivial=lambda c: True, exhaustive=True, shardable=False),
